@@ -15,13 +15,27 @@ logging.disable(logging.CRITICAL)
 
 
 class Hit(Exception):
+    RAISED = []         # every Hit constructed during the current run: one raised inside a callback is caught by the
+                        # library under test (maybeDeferred, Deferred chains) and would otherwise be lost
+
     def __init__(self, what, detail=''):
         Exception.__init__(self, what)
         self.what = what
         self.detail = detail
+        Hit.RAISED.append(self)
 
 
 PROP = None     # property whose check is running: an oracle of another property that fires does not end the search
+
+
+def _mine(hits):
+    """first recorded Hit that concerns the property under check: its tags, or None"""
+    for h in hits:
+        props, tag = h.what.split(':', 1)          # `what` may name several properties: "C01+C07:tag"
+        mine = [q + ':' + tag for q in props.split('+') if PROP is None or q == PROP]
+        if mine:
+            return h, mine
+    return None, None
 
 
 def _run(rnd, n, one):
@@ -29,16 +43,15 @@ def _run(rnd, n, one):
     seen = set()
     for i in range(n):
         script = []
+        del Hit.RAISED[:]
         try:
             one(rnd, script)
-        except Hit as h:
-            # `what` may name several properties: "C01+C07:tag" (the same observation contradicts both statements)
-            props, tag = h.what.split(':', 1)
-            whats = [q + ':' + tag for q in props.split('+')]
-            mine = [w for w in whats if PROP is None or w.startswith(PROP + ':')]
-            if mine:
-                return dict(tried=tried + 1, distinct=len(seen) + 1,
-                            hit=dict(inputs={'scenario': script}, run=dict(failed=mine, detail=str(h.detail)[:3000], outcome='violation')))
+        except Hit:
+            pass
+        h, mine = _mine(list(Hit.RAISED))
+        if mine:
+            return dict(tried=tried + 1, distinct=len(seen) + 1,
+                        hit=dict(inputs={'scenario': script}, run=dict(failed=mine, detail=str(h.detail)[:3000], outcome='violation')))
         tried += 1
         seen.add(repr(script))
     return dict(tried=tried, distinct=len(seen), hit=None)
@@ -98,14 +111,15 @@ def _run_exhaustive(one, limit):
     while tried < limit:
         e = Enumerator(prefix)
         script = []
+        del Hit.RAISED[:]
         try:
             one(e, script)
-        except Hit as h:
-            props, tag = h.what.split(':', 1)
-            mine = [q + ':' + tag for q in props.split('+') if PROP is None or q == PROP]
-            if mine:
-                return dict(tried=tried + 1, distinct=tried + 1, exhaustive=False,
-                            hit=dict(inputs={'scenario': script}, run=dict(failed=mine, detail=str(h.detail)[:3000], outcome='violation')))
+        except Hit:
+            pass
+        h, mine = _mine(list(Hit.RAISED))
+        if mine:
+            return dict(tried=tried + 1, distinct=tried + 1, exhaustive=False,
+                        hit=dict(inputs={'scenario': script}, run=dict(failed=mine, detail=str(h.detail)[:3000], outcome='violation')))
         tried += 1
         t = e.trail
         while t and t[-1][0] + 1 >= t[-1][1]:
@@ -1150,8 +1164,72 @@ def scenario_bootstrap_close(rnd, n):
     return _run(rnd, 1, one)
 
 
+def scenario_bootstrap_late_events(rnd, n):
+    """C20: events that arrive after close() - a bootstrap connection attempt succeeding or being refused - cause no
+    write, no further connection attempt and no timer, the late connection is dropped, and the operation that was
+    waiting ends in failure.  Exhaustive over 1..2 bootstrap hosts x what the late event is."""
+    from unittest.mock import Mock
+    from afkak import KafkaClient
+
+    def one(r, script):
+        clock = task.Clock()
+        nh = r.choice([1, 2])
+        attempts, written, protos = [], [], []
+
+        class Proto:
+            def __init__(self):
+                self.transport = Mock()
+
+            def request(self, req):
+                written.append(req)
+                return defer.Deferred()
+
+        class EP:
+            def __init__(self, reactor, host, port):
+                self.host = host
+
+            def connect(self, f):
+                d = defer.Deferred()
+                attempts.append((self.host, d))
+                return d
+
+        client = KafkaClient(hosts=','.join('h%d' % i for i in range(nh)), reactor=clock, endpoint_factory=EP,
+                             enable_protocol_version_discovery=False)
+        out = []
+        client.load_metadata_for_topics().addBoth(out.append)
+        n0 = len(attempts)
+        client.close()
+        late = r.choice(['connects', 'refused'])
+        script.extend([('bootstrap-hosts', nh), 'load_metadata_for_topics pending on a bootstrap connect', 'close()',
+                       ('then-the-attempt', late)])
+        host, d = attempts[-1]
+        if not d.called:
+            if late == 'connects':
+                p = Proto()
+                protos.append(p)
+                d.callback(p)
+            else:
+                d.errback(Failure(ConnectionRefusedError()))
+        clock.advance(1.0)
+        if written:
+            raise Hit('C20:request-written-to-a-bootstrap-connection-after-close', len(written[0]))
+        if len(attempts) > n0:
+            raise Hit('C20:connection-attempted-after-close', [h for h, _ in attempts[n0:]])
+        for p in protos:
+            if not p.transport.loseConnection.called:
+                raise Hit('C20:connection-established-after-close-left-open')
+        if clock.getDelayedCalls():
+            raise Hit('C20:timer-armed-by-a-closed-client', [str(dc) for dc in clock.getDelayedCalls()])
+        # (load_metadata_for_topics swallows the cancellation and ends with None, by design: only "ended, and not with a
+        # metadata success" is required here)
+        if not out or out[0] is True:
+            raise Hit('C20:operation-pending-at-close-did-not-end', repr(out)[:100])
+    return _run_exhaustive(one, 1000)
+
+
 SCENARIOS['magic_fallback'] = scenario_magic_fallback
 SCENARIOS['bootstrap_close'] = scenario_bootstrap_close
+SCENARIOS['bootstrap_late_events'] = scenario_bootstrap_late_events
 
 
 # ---------------------------------------------------------------------------------------------- producer end to end (C01 C09 C19)
@@ -1178,7 +1256,13 @@ def _parse_msgset(data, out, depth=0):
         q += 4
         val = None if vl == -1 else body[q:q + vl]
         if attr & 3 == 1:
-            _parse_msgset(gzip.decompress(val), out, depth + 1)
+            inner = []
+            _parse_msgset(gzip.decompress(val), inner, depth + 1)
+            if any(mg != magic for _, _, mg in inner):
+                raise Hit('C04:wrapper-message-format-differs-from-the-messages-it-wraps', (magic, [mg for _, _, mg in inner]))
+            if key is not None:
+                raise Hit('C04:compressed-wrapper-carries-a-key', key)
+            out.extend(inner)
         elif attr & 3 == 0:
             out.append((key, val, magic))
         else:
@@ -1232,7 +1316,11 @@ def scenario_producer_e2e(rnd, n):
             ver, corr, acks, parts = _parse_produce_request(request)
             if corr != correlationId:
                 raise Hit('C04:correlation-id-in-header-differs', (corr, correlationId))
-            e = dict(node=self.node_id, corr=corr, acks=acks, parts=parts, d=d, status='pending', expect=expectResponse,
+            want_magic = 1 if ver >= 2 else 0          # produce v0/v1 carry format 0, v2 format 1
+            bad = [mg for ms in parts.values() for _, _, mg in ms if mg != want_magic]
+            if bad or ver not in (0, 1, 2):
+                raise Hit('C04:header-version-%d-but-message-magic-%s' % (ver, sorted(set(bad))), None)
+            e = dict(node=self.node_id, corr=corr, acks=acks, parts=parts, d=d, status='pending', expect=expectResponse, ver=ver,
                      after_stop=w['stopped'], leaders=dict(w['leaders']), seq=len(w['log']))
             w['log'].append(e)
             if not expectResponse:
@@ -1255,22 +1343,47 @@ def scenario_producer_e2e(rnd, n):
     def one(r, script):
         clock = task.Clock()
         client = KafkaClient(hosts='h:1', reactor=clock, enable_protocol_version_discovery=False, timeout=30000)
-        world = dict(log=[], leaders={0: r.choice([1, 2]), 1: r.choice([1, 2])}, stopped=False)
+        world = dict(log=[], leaders={0: r.choice([1, 2]), 1: r.choice([1, 2])}, stopped=False, md_pending=[])
+        if r.random() < 0.4:
+            # the broker advertised its API versions (in no particular order): produce v2 => message format 1
+            from afkak.common import ApiVersion
+            client._api_versions = [ApiVersion(3, 0, 2), ApiVersion(0, 0, r.choice([2, 3, 7])), ApiVersion(1, 0, 3)]
         fakes = {1: FakeBC(world, 1), 2: FakeBC(world, 2)}
         brokers = {i: BrokerMetadata(i, 'b%d' % i, 9092) for i in (1, 2)}
         client._get_brokerclient = lambda nid: fakes[nid]
         md_fail = [False]
 
+        def install_md():
+            parts = {p: PartitionMetadata('t', p, 0, world['leaders'][p], (1, 2), (1, 2)) for p in (0, 1)}
+            client._merge_topic_metadata(brokers, {'t': TopicMetadata('t', 0, parts)}, False)
+
         def load_md(*topics):
             if md_fail[0]:
                 from afkak.common import KafkaUnavailableError
                 return defer.fail(Failure(KafkaUnavailableError('no metadata')))
-            parts = {p: PartitionMetadata('t', p, 0, world['leaders'][p], (1, 2), (1, 2)) for p in (0, 1)}
-            client._merge_topic_metadata(brokers, {'t': TopicMetadata('t', 0, parts)}, False)
+            if md_slow[0]:
+                d = defer.Deferred()            # answered later by an `md-reply` event
+                world['md_pending'].append(d)
+                return d
+            install_md()
             return defer.succeed(None)
 
+        def md_reply(ok):
+            d = world['md_pending'].pop(0)
+            if d.called:
+                return
+            if ok:
+                install_md()
+                d.callback(None)
+            else:
+                from afkak.common import KafkaUnavailableError
+                d.errback(Failure(KafkaUnavailableError('no metadata')))
+
+        md_slow = [False]
         client.load_metadata_for_topics = load_md
-        load_md('t')
+        if r.random() < 0.75:
+            load_md('t')                      # otherwise the producer starts without any metadata for the topic
+        md_slow[0] = r.random() < 0.4
         acks = r.choice([1, 1, -1, 0])
         batch = r.choice([False, True, True])
         max_att = r.choice([1, 2, 3, 4])
@@ -1315,6 +1428,10 @@ def scenario_producer_e2e(rnd, n):
             body = struct.pack('>ii', e['corr'], 1) + struct.pack('>h', 1) + b't' + struct.pack('>i', len(codes))
             for (t, p), c in codes.items():
                 body += struct.pack('>ihq', p, c, 100 + e['seq'])
+                if e['ver'] >= 2:
+                    body += struct.pack('>q', -1)               # log_append_time
+            if e['ver'] >= 1:
+                body += struct.pack('>i', 0)                    # throttle_time_ms
             e['d'].callback(body)
 
         nsteps = r.choice([3, 5, 8, 12])
@@ -1326,11 +1443,17 @@ def scenario_producer_e2e(rnd, n):
                 opts += ['move', 'mdfail']
                 if r.random() < 0.2:
                     opts.append('stop')
-            if sends and r.random() < 0.15:
+            if sends and r.random() < (0.5 if world['md_pending'] else 0.15):
                 opts.append('cancel')
+            if world['md_pending']:
+                opts += ['md-reply', 'md-reply']
             ev = r.choice(opts)
             if ev == 'send':
                 do_send()
+            elif ev == 'md-reply':
+                ok = r.random() < 0.6
+                script.append(('metadata-reply', ok))
+                md_reply(ok)
             elif ev == 'stop':
                 # stop with whatever is queued / in flight: every outstanding send fails, nothing further is transmitted
                 script.append('stop')
@@ -1365,7 +1488,10 @@ def scenario_producer_e2e(rnd, n):
                     s['d'].cancel()
         # drain: brokers answer what is pending (leaders acknowledge), timers run, then the producer is stopped
         md_fail[0] = False
-        for _ in range(40):
+        md_slow[0] = False
+        for _ in range(60):
+            while world['md_pending']:
+                md_reply(True)
             for e in pending():
                 if e['d'].called:
                     e['status'] = 'timed-out'
@@ -1374,6 +1500,13 @@ def scenario_producer_e2e(rnd, n):
             clock.advance(1.0)
             if all(s['out'] for s in sends) and not pending():
                 break
+        if not world['stopped']:
+            # the cluster has been healthy for a minute: every send must have ended one way or the other by now
+            waits_for_threshold = bool(kw) and not kw.get('batch_every_t')       # queued under the threshold, no time limit
+            stuck = [s['sid'] for s in sends if not s['out'] and not (
+                waits_for_threshold and not any(v == s['msgs'][0] for e in world['log'] for ms in e['parts'].values() for k, v, mg in ms))]
+            if stuck:
+                raise Hit('C01:send-never-resolved-although-the-cluster-answers', stuck)
         if not world['stopped']:
             script.append('stop')
             world['stopped'] = True
@@ -1607,16 +1740,12 @@ def scenario_consumer_e2e(rnd, n):
                 if fmt == 0:
                     inner = P.nat_enc_msgset([(o, P.nat_enc_msg(0, 0, key(o), val(o))) for o in inner_offs])
                 else:
-                    # format 1: inner offsets are relative, the wrapper carries the absolute offset of the last one
-                    # only gap-free runs can be expressed relatively: the run around the first requested entry
-                    lo = hi = idx
-                    while lo > first and log[lo - 1] == log[lo] - 1:
-                        lo -= 1
-                    while hi + 1 < idx + len(take) and log[hi + 1] == log[hi] + 1:
-                        hi += 1
-                    inner_offs = log[lo:hi + 1]
-                    inner = P.nat_enc_msgset([(i, P.nat_enc_msg(1, 0, key(o), val(o), 1500000000000))
-                                              for i, o in enumerate(inner_offs)])
+                    # format 1: inner offsets are relative to the wrapper's first message and the wrapper carries the
+                    # absolute offset of the last one; a compacted wrapper keeps the surviving messages' original
+                    # relative offsets, so they need neither be contiguous nor start at 0
+                    shift = r.choice([0, 0, 2])
+                    inner = P.nat_enc_msgset([(o - inner_offs[0] + shift, P.nat_enc_msg(1, 0, key(o), val(o), 1500000000000))
+                                              for o in inner_offs])
                 entries.append((inner_offs[-1], P.nat_wrap_gzip(fmt, inner, 1500000000000)))
             else:
                 for o in take:
